@@ -67,4 +67,9 @@ def setsliceOp (md : Nat) (f : FmtStr) (startindex endindex : Nat) (fs : Operand
     | .error e => .error e
     | .ok result => if len result > length then .error .valueError else .ok result
 
+/-- `FmtStr.setitem(startindex, fs)`: "Shim for easily converting old __setitem__ calls" -
+    `self.setslice_with_length(startindex, startindex + 1, fs, len(self))`. -/
+def setitemOp (md : Nat) (f : FmtStr) (startindex : Nat) (fs : Operand) : Except PyErr FmtStr :=
+  setsliceOp md f startindex (startindex + 1) fs (len f)
+
 end Curtsies.Splice
